@@ -146,7 +146,10 @@ type c15Op struct {
 	Err       string
 }
 
+// Big: operations up to the largest single-packet size (32768 bytes) on a file of several packets, so that a
+// server that answers a maximal READ short (the client then completes it with a second request) is observed.
 type c15Cfg struct {
+	Big        bool   `json:"big,omitempty"`
 	Server     string `json:"server"` // rs | os
 	Alloc      bool   `json:"allocator"`
 	Goroutines int    `json:"goroutines"`
@@ -231,6 +234,9 @@ func c15Run(cfg c15Cfg) (init []byte, ops []c15Op, problem string) {
 			case x < 4:
 				p.kind = 'w'
 				p.n = 2 + rnd.Intn(10)
+				if cfg.Big {
+					p.n = []int{32768, 32767, 20000, 32768 - 13, 4096}[rnd.Intn(5)]
+				}
 				p.off = int64(rnd.Intn(cfg.FileSize - p.n + 1))
 				p.data = make([]byte, p.n)
 				p.data[0], p.data[1] = byte(opid>>8), byte(opid) // unique
@@ -241,6 +247,9 @@ func c15Run(cfg c15Cfg) (init []byte, ops []c15Op, problem string) {
 				p.kind = 'r'
 				for tries := 0; ; tries++ {
 					p.n = 1 + rnd.Intn(16)
+					if cfg.Big {
+						p.n = 32768 - rnd.Intn(16)
+					}
 					p.off = int64(rnd.Intn(cfg.FileSize - p.n + 1))
 					if !usedRead[[2]int{int(p.off), p.n}] || tries > 50 {
 						break
@@ -389,6 +398,10 @@ func checkC15(c *lib.Ctx) {
 				Goroutines: 2 + c.Rand.Intn(7), OpsEach: 4 + c.Rand.Intn(20), Handles: 1 + c.Rand.Intn(3),
 				FileSize: 48 + c.Rand.Intn(64), Seed: c.Rand.Int63(),
 			})
+			if i%5 == 4 {
+				k := &cfgs[len(cfgs)-1]
+				k.Big, k.FileSize, k.OpsEach = true, 3*32768+c.Rand.Intn(100), 3+c.Rand.Intn(6)
+			}
 		}
 	}
 	var lines []string
@@ -407,6 +420,9 @@ func checkC15(c *lib.Ctx) {
 		r.Case(line, overlap)
 		r.Hist(fmt.Sprintf("%s-alloc=%v", cfg.Server, cfg.Alloc))
 		r.Hist(fmt.Sprintf("goroutines-%d", cfg.Goroutines))
+		if cfg.Big {
+			r.Hist("max-packet-sized-operations")
+		}
 		if overlap {
 			r.Hist("has-overlapping-write")
 		}
